@@ -13,6 +13,8 @@ structure DSt where
   s : St := init
   cancelled : Nat → Bool := fun _ => false
   destroyed : List Nat := []
+  /-- reference-counted variant: outcome of the atomic decrement+delete, reported at the thread's last step -/
+  delFlag : Nat → Option Bool := fun _ => none
   /-- a stale callback has removed a live instance's map entry in this case -/
   staleUsed : Bool := false
 
@@ -60,9 +62,13 @@ def goThread (d : DSt) (t : Nat) : DSt × String :=
     else if sl.owner.isSome && d.cancelled t then
       -- its Broadcast wakes the slot's waiter, which counts itself again and waits again
       let d := act d (.giveUp t)
+      -- (reference-counted variant: giving up releases the count at once)
+      let d := if d.cfg.refCounted then act d (.leaveDec t) else d
       let d := threads.foldl (fun d y =>
         if (d.s.thr y).pc == .woken && (d.s.thr y).slot == x.slot then
-          (if d.cancelled y then act d (.giveUp y) else act d (.enter y))
+          (if d.cancelled y then
+            (let d := act d (.giveUp y); if d.cfg.refCounted then act d (.leaveDec y) else d)
+           else act d (.enter y))
         else d) d
       (d, "gaveup")
     else
@@ -85,10 +91,19 @@ def goThread (d : DSt) (t : Nat) : DSt × String :=
   | .left1 =>
     -- after `giveUp` in the reference-counted variant the thread is at `left1` too, but the
     -- harness has no stop there (the current code returns at once)
-    (act d (.leaveDec t), "dec")
+    if d.cfg.refCounted then
+      let before := d.s.slotMap
+      let d := act d (.leaveDec t)
+      let deleted := before.isSome && d.s.slotMap.isNone
+      ({ d with delFlag := fun y => if y = t then some deleted else d.delFlag y }, "dec")
+    else (act d (.leaveDec t), "dec")
   | .left2 =>
     let zero := (d.s.slots x.slot).count == 0
     (act d (.leaveDel t), if zero then "deleted" else "kept")
+  | .done =>
+    match d.delFlag t with
+    | some b => ({ d with delFlag := fun y => if y = t then none else d.delFlag y }, if b then "deleted" else "kept")
+    | none => (d, "skip")
   | _ => (d, "skip")
 
 def stepLine (d : DSt) (line : String) : DSt × String :=
@@ -106,7 +121,7 @@ def stepLine (d : DSt) (line : String) : DSt × String :=
     | none => (d, "skip")
     | some t =>
       let pc := (d.s.thr t).pc
-      if pc == .idle || pc == .done || d.cancelled t then (d, "skip") else
+      if pc == .idle || (pc == .done && (d.delFlag t).isNone) || d.cancelled t then (d, "skip") else
       let d := { d with cancelled := fun x => if x = t then true else d.cancelled x }
       (d, s!"cancel {t} {render d}")
   | ["close"] =>
